@@ -1,3 +1,4 @@
+import Tumfl.Props.C15
 import Tumfl.Props.Final
 import Tumfl.Props.Format
 import Tumfl.Props.Same
@@ -8,6 +9,9 @@ import Tumfl.Props.C11
 import Tumfl.Props.C06
 import Tumfl.Props.C07
 import Tumfl.Props.C13
+#print axioms Tumfl.Props.C15_idempotent
+#print axioms Tumfl.Props.C15_idempotent_general
+#print axioms Tumfl.Inst.minifiedStyle_repr_ok
 #print axioms Tumfl.Props.C08_remove_separators
 #print axioms Tumfl.Props.C08_add_spacing
 #print axioms Tumfl.Props.C08_remove_orphaned
@@ -19,10 +23,10 @@ import Tumfl.Props.C13
 #print axioms Tumfl.Props.C02_boundary
 #print axioms Tumfl.Props.C08_comment_wf
 #print axioms Tumfl.Props.C08_comment_text
+#print axioms Tumfl.Props.C08_format_tree
 #print axioms Tumfl.Props.C01_default_style
 #print axioms Tumfl.Props.C02_minified_style
 #print axioms Tumfl.Inst.defaultStyle_repr_ok
-#print axioms Tumfl.Inst.minifiedStyle_repr_ok
 #print axioms Tumfl.Props.C01_same_program
 #print axioms Tumfl.Props.C02_same_program_final
 #print axioms Tumfl.Props.C01_same_program_emit
